@@ -162,6 +162,25 @@ def main(argv=None):
         tail = "" if failing_input else " no-failing-input-found"
         lines.append("VIOLATION property=%s replay=%s%s" % (prop, path, tail))
 
+    # every listed open finding is replayed on every run: still failing -> KNOWN-FINDING line; repaired -> stale entry (no line)
+    import subprocess
+    stale = []
+    for fd in kf.get("findings", []):
+        if fd.get("property") != prop or fd.get("status", "open") != "open" or not fd.get("replay"):
+            continue
+        try:
+            pr = subprocess.run([C.PY_REPO, "-m", "replay.run", "--prop", prop, "--case-json", json.dumps(fd["replay"])], cwd=C.VERIF, env=C.repo_env(),
+                                stdout=subprocess.PIPE, stderr=subprocess.PIPE, timeout=300)
+            out = json.loads(pr.stdout.decode().strip().splitlines()[-1])
+        except Exception as e:      # noqa
+            errors.append("replay of known finding %s crashed: %s" % (fd["id"], e))
+            continue
+        if out.get("failed"):
+            known_hit.append(fd["id"])
+            lines.append("KNOWN-FINDING: property=%s %s [%s]" % (prop, fd["what"], fd["id"]))
+        else:
+            stale.append(fd["id"])
+            fd["status"] = "stale"       # in memory only: the entry no longer suppresses anything in this run
     seen_known = set()
     for ob in failed:
         fl = None
